@@ -147,34 +147,21 @@ Definition go_fresh (n : Z) (out : text) : nat :=
   Z.to_nat n.
 
 (* ---- dirCase ----------------------------------------------------------------------------------- *)
-(* cases.Title(language.English) of golang.org/x/text on lower-cased ASCII (cases/map.go, titleCaser):
-   a cased letter is made upper case when the caser is not inside a word, lower case otherwise, and puts
-   it inside a word; every other character is copied, and ends the word when it is a "break": anything
-   but a letter, a digit, _ (ExtendNumLet) and the mid-word characters ' . : (Single_Quote, MidNumLet,
-   MidLetter); two mid-word characters in a row end the word as well. *)
-Definition is_mid (a : ascii) : bool := ascii_eqb a "'" || ascii_eqb a "." || ascii_eqb a ":".
-Definition no_break (a : ascii) : bool := is_alnum a || ascii_eqb a "_" || is_mid a.
-Fixpoint go_title (t : text) (midword : bool) : text :=
-  match t with
+(* appendCapitalized(dst, buf, firstOnly): buf is lower case already; the first character of each word (a run of letters
+   and digits), or of the first word only, is made upper case *)
+Fixpoint go_capitalized (buf : text) (firstOnly inWord done : bool) : text :=
+  match buf with
   | [] => []
-  | a :: t' =>
-      let '(a', m) := if is_alpha a then ((if midword then to_lower a else to_upper a), true)
-                      else (a, if no_break a then midword else false) in
-      let m := if is_mid a && (match t' with b :: _ => is_mid b | [] => false end) then false else m in
-      a' :: go_title t' m
+  | a :: t =>
+      if negb (is_alnum a) then a :: go_capitalized t firstOnly false (done || (inWord && firstOnly))
+      else if inWord || done then a :: go_capitalized t firstOnly inWord done
+      else to_upper a :: go_capitalized t firstOnly true done
   end.
-Fixpoint index_sp (t : text) (i : nat) : option nat :=      (* bytes.Index(out, " ") *)
-  match t with [] => None | a :: t' => if ascii_eqb a sp then Some i else index_sp t' (S i) end.
 Definition go_case (colon at_ : bool) (t : text) : text :=
   match colon, at_ with
   | true, true => map to_upper t
-  | true, false => go_title (map to_lower t) false
-  | false, true =>
-      let l := map to_lower t in
-      match index_sp l 0 with
-      | Some (S i) => go_title (firstn (S i) l) false ++ skipn (S i) l
-      | _ => go_title l false
-      end
+  | true, false => go_capitalized (map to_lower t) false false false
+  | false, true => go_capitalized (map to_lower t) true false false
   | false, false => map to_lower t
   end.
 
